@@ -531,7 +531,24 @@ func c08NegControls(r *mon.Run) {
 				nr++
 			}
 		}
-		if nr >= 2 && len(checkHistory(run.evs, run.local)) == 0 {
+		// … in which the last file render shows a path that an earlier render showed too (the controls alter it)
+		repeated := false
+		last := -1
+		for i, e := range run.evs {
+			if e.Op == "FileRender" && e.Via == "" && len(e.Quals) > 0 {
+				last = i
+			}
+		}
+		if last >= 0 {
+			for k := range run.evs[last].Quals {
+				for j := 0; j < last; j++ {
+					if _, ok := run.evs[j].Quals[k]; ok {
+						repeated = true
+					}
+				}
+			}
+		}
+		if nr >= 2 && repeated && len(checkHistory(run.evs, run.local)) == 0 {
 			base = run
 		}
 	}
@@ -578,10 +595,28 @@ func c08NegControls(r *mon.Run) {
 	r.NegControl("qualifier-changed-later", func() {
 		evs := clone()
 		i := lastRender(evs)
+		// a path that an earlier render already showed (smallest index: no dependence on map order); if there is
+		// none, the smallest path of this render
+		pick := -1
 		for k := range evs[i].Quals {
-			evs[i].Quals[k] = evs[i].Quals[k] + "9"
-			break
+			earlier := false
+			for j := 0; j < i; j++ {
+				if _, ok := evs[j].Quals[k]; ok {
+					earlier = true
+				}
+			}
+			if earlier && (pick < 0 || k < pick) {
+				pick = k
+			}
 		}
+		if pick < 0 {
+			for k := range evs[i].Quals {
+				if pick < 0 || k < pick {
+					pick = k
+				}
+			}
+		}
+		evs[i].Quals[pick] = evs[i].Quals[pick] + "9"
 		judge(evs)
 	})
 	r.NegControl("import-spec-dropped", func() {
